@@ -630,6 +630,7 @@ type FnCtx struct {
 	headers        map[*ssa.BasicBlock]int // header -> loop ordinal (1-based, block order)
 	loopsOf        map[*ssa.BasicBlock][]string
 	loopPre        map[*ssa.BasicBlock]*State // state in which each loop was entered
+	iterPre        map[*ssa.BasicBlock]*State // state at the start of the iteration (after the loop-head havoc)
 	hdrVars        map[*ssa.BasicBlock]map[string]Val
 	noPanic        bool
 	iters          map[ssa.Value]*iterInfo
